@@ -11,9 +11,11 @@ import (
 	"path/filepath"
 	"sort"
 	"strings"
+	"sync"
 	"time"
 
 	"github.com/enfein/mieru/v3/pkg/appctl/appctlpb"
+	"github.com/enfein/mieru/v3/pkg/protocol"
 	"google.golang.org/protobuf/proto"
 	"verifharness/core"
 	"verifharness/sim"
@@ -46,6 +48,9 @@ type c04Case struct {
 	ClientWrites  []int           `json:"client_writes"`
 	ServerWrites  []int           `json:"server_writes"`
 	Special       string          `json:"special,omitempty"` // swap32 | copy32 (crafted application chunks)
+	Label         string          `json:"label,omitempty"`   // name of the deterministic boundary this case stands for
+	GapUs         int             `json:"gap_us,omitempty"`  // pause between consecutive writes of both writers
+	Rerun         bool            `json:"rerun,omitempty"`   // second execution of a case whose first one hit the time limit
 	TimeoutS      int             `json:"timeout_s"`
 }
 
@@ -83,6 +88,7 @@ type c04Outcome struct {
 	world *sim.World
 	tcp   *c04TCP
 	udp   *c04UDP
+	ends  *c04Ends
 }
 
 func c04Exec(k c04Case) *c04Outcome {
@@ -102,13 +108,17 @@ func c04Exec(k c04Case) *c04Outcome {
 	} else {
 		o.tcp = &c04TCP{k: k, keys: keys, dirs: map[[2]int]*c04StreamDir{}}
 		w.Net.StreamFilter = o.tcp.filter
+		if k.Mut.Ext {
+			w.Net.StreamFilter = (&c04TCPX{c04TCP: o.tcp}).filter // class-aware kinds: c04_ext.go
+		}
 	}
-	scripts := []sim.Script{{ClientWrites: k.ClientWrites, ServerWrites: k.ServerWrites, MaxRead: 65536}}
+	scripts := []sim.Script{{ClientWrites: k.ClientWrites, ServerWrites: k.ServerWrites, MaxRead: 65536, WriteGapUs: k.GapUs}}
 	to := time.Duration(k.TimeoutS) * time.Second
 	if to <= 0 {
 		to = 60 * time.Second
 	}
-	o.tr = sim.RunTransfer(w, scripts, k.Seed, to)
+	o.ends = &c04Ends{World: w}
+	o.tr = sim.RunTransfer(o.ends, scripts, k.Seed, to)
 	return o
 }
 
@@ -117,7 +127,11 @@ func c04Key(k c04Case, what string) string {
 	if k.UDP {
 		tr = "udp"
 	}
-	if k.UDP && k.Mut.Kind == "reflect" {
+	if k.UDP && k.Mut.Kind == "reflect" && (!k.Mut.Ext || k.Mut.Class == "boundary") {
+		// a whole datagram delivered back to its sender
+		if what == "content-differs" {
+			return "C04/udp/reflection-delivered-to-application"
+		}
 		return "C04/udp/reflection-closes-session"
 	}
 	if k.UDP && k.Mut.Kind == "meta-payload-swap" {
@@ -133,15 +147,34 @@ func c04Key(k c04Case, what string) string {
 }
 
 func c04Run(c *core.Ctx, k c04Case) {
+	if strings.HasPrefix(k.Special, "tcp-") {
+		c04RunAlign(c, k) // c04_align.go: receivers aligned to a payload nonce / the reverse direction / another connection
+		return
+	}
 	if k.Special != "" {
 		c04RunSpecial(c, k)
 		return
 	}
 	key, _ := json.Marshal(k)
+	t0 := time.Now()
 	o := c04Exec(k)
 	if o.world != nil {
 		defer bgClose.Go(o.world.Close)
 	}
+	defer func() {
+		tr := "tcp"
+		if k.UDP {
+			tr = "udp"
+		}
+		c.Hist("case seconds "+tr, fmt.Sprintf("%2d", int(time.Since(t0).Seconds())))
+		if os.Getenv("VH_SLOW") != "" && time.Since(t0) > 12*time.Second {
+			el := time.Duration(0)
+			if o.tr != nil {
+				el = o.tr.Elapsed
+			}
+			c.Hist("slow", fmt.Sprintf("%s %s %s/%s t=%s c2s=%v total=%ds transfer=%ds", tr, k.PatternName, k.Mut.Kind, k.Mut.Class, k.Mut.Target, k.C2S, int(time.Since(t0).Seconds()), int(el.Seconds())))
+		}
+	}()
 	if o.setup != "" {
 		c.Eval(string(key), false)
 		c.Violate("C04/setup", "endpoints failed before the scenario could run: "+o.setup, k)
@@ -165,8 +198,49 @@ func c04Run(c *core.Ctx, k c04Case) {
 	c.Hist("direction", dirName)
 	if !applied && k.Mut.Kind != "none" {
 		c.Hist("branch", "mutation-not-applicable")
+		extra := ""
+		if !k.UDP && o.tcp != nil {
+			o.tcp.mu.Lock()
+			for _, c2s := range []bool{true, false} {
+				d := o.tcp.dir(0, c2s)
+				n := 0
+				for _, u := range d.units {
+					if u.has(k.Mut.Class) {
+						n++
+					}
+				}
+				extra += fmt.Sprintf(" c2s=%v:units=%d,with-class=%d", c2s, len(d.units), n)
+			}
+			o.tcp.mu.Unlock()
+		}
+		c.Hist("not-applied", fmt.Sprintf("%s %s %s/%s target=%q mutated-c2s=%v%s", tr, k.PatternName, k.Mut.Kind, k.Mut.Class, k.Mut.Target, k.C2S, extra))
+	}
+	if applied {
+		c04Cells.add(k)
+		if k.UDP {
+			c04Lens(c, tr, o.udp.target)
+		} else {
+			c04Lens(c, tr, o.tcp.target)
+		}
+		if k.Mut.Target != "" {
+			c.Hist("udp target", k.Mut.Target)
+		}
+		if k.Label != "" {
+			c.Hist("deterministic boundary", k.Label)
+		}
 	}
 	s := o.tr.Sessions[0]
+	// the first four bytes of the client→server stream (the session tag, written as 00 00 00 00) are read
+	// by the accepting side before the reader starts: they are content like any other
+	o.ends.mu.Lock()
+	tagGot := append([]byte(nil), o.ends.tagGot...)
+	o.ends.mu.Unlock()
+	for i, b := range tagGot {
+		if b != 0 {
+			c.Violate(c04Key(k, "content-differs"), fmt.Sprintf("%s %s, %s/%s mutation of the %s traffic: byte %d read by the client→server reader (the server application) is %#02x, the client application wrote 0x00 at that position (first bytes read: %x)", tr, k.PatternName, k.Mut.Kind, k.Mut.Class, dirName, i, b, tagGot), k)
+			break
+		}
+	}
 	if os.Getenv("VH_DEBUG") != "" {
 		fmt.Fprintf(os.Stderr, "c04 %s %s %s mut=%+v applied=%v c2s{got %d/%d mm %d err %q} s2c{got %d/%d mm %d err %q} stalled=%v elapsed=%v\n",
 			tr, k.PatternName, dirName, k.Mut, applied, s.C2S.Got, s.C2S.Want, s.C2S.MismatchAt, s.C2S.Err, s.S2C.Got, s.S2C.Want, s.S2C.MismatchAt, s.S2C.Err, o.tr.Stalled, o.tr.Elapsed)
@@ -186,15 +260,47 @@ func c04Run(c *core.Ctx, k c04Case) {
 			c.Violate(c04Key(k, "transfer-incomplete"), fmt.Sprintf("udp %s, %s/%s mutation of one %s datagram: the %s reader got %d of %d bytes (final %q, writer %q, stalled=%v): a modified datagram must behave as a lost one and the stream must still complete", k.PatternName, k.Mut.Kind, k.Mut.Class, dirName, d.name, d.r.Got, d.r.Want, d.r.Err, d.r.WriteErr, o.tr.Stalled), k)
 		}
 	}
-	if !applied || c.Model == nil {
+	if c.Model == nil {
+		return
+	}
+	if k.UDP {
+		// the whole run through the end-to-end model of the receive path, applied or not
+		t1 := time.Now()
+		c04CompareUDPSeq(c, k, o)
+		if os.Getenv("VH_SLOW") != "" {
+			c.Hist("seq compare seconds", fmt.Sprintf("%2d (exec %2d)", int(time.Since(t1).Seconds()), int(t1.Sub(t0).Seconds())))
+		}
+	}
+	if !applied {
 		return
 	}
 	if k.UDP {
 		c04CompareUDP(c, k, o)
 	} else {
 		c04CompareTCP(c, k, o)
+		c04CompareTCPK(c, k, o) // c04_align.go: the same stream against the key-history model (c04-tcpk, c04-feedeq, c04-leopen)
 	}
 }
+
+var c04Cells = &c04Matrix{}
+
+// c04Again collects cases to be executed once more after the parallel phase.
+type c04Retry struct {
+	mu    sync.Mutex
+	cases []c04Case
+}
+
+func (r *c04Retry) add(k c04Case) {
+	k.Rerun = true
+	if k.TimeoutS < 20 {
+		k.TimeoutS = 20
+	}
+	r.mu.Lock()
+	r.cases = append(r.cases, k)
+	r.mu.Unlock()
+}
+
+var c04Again = &c04Retry{}
 
 // ------------------------------------------------------------------------------------------------
 // model prediction, TCP: the whole mutated direction is replayed through the model receiver
@@ -268,7 +374,7 @@ func c04CompareTCP(c *core.Ctx, k c04Case, o *c04Outcome) {
 	delta := nonceDelta(nonce0, mutated[:24])
 	ent := c04HonestTCP(units)
 	c.Compared()
-	reply := c.Model.Ask("c04-tcp %d %s %s", delta, core.Hex(mutated[24:]), strings.Join(ent, " "))
+	reply := c04Procs.ask(c, fmt.Sprintf("c04-tcp %d %s %s", delta, core.Hex(mutated[24:]), strings.Join(ent, " ")))
 	f := strings.Fields(reply)
 	if len(f) < 4 || f[0] != "ok" {
 		c.Disagree("C04/corr/tcp-model-error", "model reply: "+reply, k)
@@ -291,12 +397,24 @@ func c04CompareTCP(c *core.Ctx, k c04Case, o *c04Outcome) {
 	// gets all of it still depends on a race between its Accept / Read and the teardown of the
 	// underlay after the failed open (delivered-but-unprocessed segments are dropped with the
 	// session). More than the model accepts can never be delivered.
+	// Fewer than the model is legitimate in exactly that situation, i.e. only when the model receiver
+	// ended DEAD (an open failed: the real underlay is torn down). A model receiver that is still alive —
+	// everything decoded, or waiting for bytes that never come — stands for an endpoint that keeps its
+	// sessions, so the application must get every byte the model accepts.
+	dead := f[1] == "1"
 	if got > predicted {
 		c.Disagree("C04/corr/tcp-delivered-bytes", fmt.Sprintf("%s/%s on %s: the model receiver accepts %d application bytes of the mutated stream, the real endpoint delivered %d (%s)", k.Mut.Kind, k.Mut.Class, k.PatternName, predicted, got, reply), k)
 	} else if got == predicted {
 		c.Hist("tcp_delivered_vs_model", "equal")
+	} else if dead {
+		c.Hist("tcp_delivered_vs_model", "fewer (teardown race after a failed open)")
+	} else if o.tr.Stalled && !k.Rerun {
+		// the transfer hit its time limit: a cut stream (the endpoint waits, as the model does) or merely a
+		// slow machine — decided by running the case once more, alone and with a longer limit
+		c.Hist("tcp_delivered_vs_model", "fewer at the time limit (run again)")
+		c04Again.add(k)
 	} else {
-		c.Hist("tcp_delivered_vs_model", "fewer (teardown race)")
+		c.Disagree("C04/corr/tcp-delivered-fewer-than-model", fmt.Sprintf("%s/%s on %s: the model receiver accepts %d application bytes of the mutated stream and no open fails, the real application read only %d (%s; reader ended with %q)", k.Mut.Kind, k.Mut.Class, k.PatternName, predicted, got, reply, r.Err), k)
 	}
 }
 
@@ -350,8 +468,8 @@ func c04ObservedUDP(k c04Case, o *c04Outcome, mutated []byte, seq uint32, sid ui
 			continue
 		}
 		seg, err := wire.OpenUDP(e.Data, keys)
-		if err != nil || seg.SessionID != sid || !seg.IsData() {
-			continue
+		if err != nil || seg.SessionID != sid || !(seg.IsData() || seg.Proto == wire.OpenSessionRequest || seg.Proto == wire.OpenSessionResponse) {
+			continue // only open request / open response / data segments are numbered and acknowledged
 		}
 		if seg.Seq == seq && mutAt < 0 {
 			return "unknown" // the receiver already had this sequence number
@@ -392,13 +510,34 @@ func c04CompareUDP(c *core.Ctx, k c04Case, o *c04Outcome) {
 	if u == nil || mutated == nil {
 		return // reordering / duplication / reflection: the datagram itself is genuine
 	}
-	ent := c04HonestUDP(u)
-	c.Compared()
 	seen := mutated
 	if len(seen) > 1500 {
 		seen = seen[:1500] // readOneSegment reads into a 1500-byte buffer: the socket truncates
 	}
-	reply := c.Model.Ask("c04-udp %s %s %s", core.Hex(u.Raw[:24]), core.Hex(seen), strings.Join(ent, " "))
+	// the honest pairs sealed under the nonce the mutated datagram CARRIES (it may be another
+	// datagram's: byte-range replay / reflection / splice)
+	ent := c04HonestUDP(u)
+	nonce := u.Raw[:24]
+	if len(seen) >= 24 && string(seen[:24]) != string(nonce) {
+		o.world.Net.Lock()
+		ds := append([]*simnet.Datagram(nil), o.world.Net.Datagrams...)
+		o.world.Net.Unlock()
+		tab, _ := c04HonestByNonce(ds, o.world.AllKeys())
+		if e, ok := tab[string(seen[:24])]; ok {
+			ent, nonce = e, seen[:24]
+		}
+	}
+	for _, d := range func() []*simnet.Datagram {
+		o.world.Net.Lock()
+		defer o.world.Net.Unlock()
+		return append([]*simnet.Datagram(nil), o.world.Net.Datagrams...)
+	}() {
+		if string(d.Data) == string(mutated) {
+			return // the "mutated" datagram is byte-identical to a genuine one: a duplicate, nothing to decide
+		}
+	}
+	c.Compared()
+	reply := c.Model.Ask("c04-udp %s %s %s", core.Hex(nonce), core.Hex(seen), strings.Join(ent, " "))
 	f := strings.Fields(reply)
 	if len(f) < 2 || f[0] != "ok" {
 		c.Disagree("C04/corr/udp-model-error", "model reply: "+reply, k)
@@ -406,7 +545,10 @@ func c04CompareUDP(c *core.Ctx, k c04Case, o *c04Outcome) {
 	}
 	modelAccepts := f[1] == "accept"
 	c.Hist("model_udp", f[1])
-	obs := c04ObservedUDP(k, o, mutated, u.Seg.Seq, u.Seg.SessionID)
+	obs := "n/a (pure ack: nothing acknowledges an ack)"
+	if !u.Seg.IsAck() {
+		obs = c04ObservedUDP(k, o, mutated, u.Seg.Seq, u.Seg.SessionID)
+	}
 	c.Hist("observed_udp", obs)
 	if (obs == "accepted" && !modelAccepts) || (obs == "rejected" && modelAccepts) {
 		c.Disagree("C04/corr/udp-accept-reject", fmt.Sprintf("%s/%s on %s: model says %q, the real endpoint %s the mutated datagram (seq %d; judged from the cumulative acks it emitted before any genuine copy arrived)", k.Mut.Kind, k.Mut.Class, k.PatternName, reply, obs, u.Seg.Seq), k)
@@ -570,36 +712,234 @@ func min(a, b int) int {
 // ------------------------------------------------------------------------------------------------
 // generator
 
-func genC04(r *rand.Rand, thorough bool) []c04Case {
-	var cases []c04Case
-	mk := func(udp bool, pat string, c2s bool, m c04Mut) {
-		k := c04Case{Seed: r.Int63(), UDP: udp, MTU: 1400, PatternName: pat, C2S: c2s, Mut: m, TimeoutS: 5}
-		p := patJSON(c04Pattern(pat))
-		k.ClientPattern, k.ServerPattern = p, p
-		if udp {
-			k.MTU = udpMTUs[r.Intn(len(udpMTUs))]
-			k.TimeoutS = 90
-		}
-		// a dozen writes per side: small ones (one unit each, with room for padding) and a few large
-		ws := func(big int) []int {
-			var x []int
-			for i := 0; i < 12; i++ {
-				x = append(x, 40+r.Intn(900))
+// c04Writes: a dozen writes per side — small ones (one unit each, with room for padding) and a few
+// large ones.
+func c04Writes(r *rand.Rand, big int) []int {
+	var x []int
+	for i := 0; i < 12; i++ {
+		x = append(x, 40+r.Intn(900))
+	}
+	x[3+r.Intn(3)] = 2500 + r.Intn(2500)
+	x[8+r.Intn(3)] = big
+	return x
+}
+
+func c04MkCase(r *rand.Rand, udp bool, pat string, c2s bool, m c04Mut) c04Case {
+	k := c04Case{Seed: r.Int63(), UDP: udp, MTU: 1400, PatternName: pat, C2S: c2s, Mut: m, TimeoutS: 5}
+	p := patJSON(c04Pattern(pat))
+	k.ClientPattern, k.ServerPattern = p, p
+	if udp {
+		k.MTU = udpMTUs[r.Intn(len(udpMTUs))]
+		k.TimeoutS = 90
+	}
+	k.ClientWrites, k.ServerWrites = c04Writes(r, 9000+r.Intn(5000)), c04Writes(r, 20000+r.Intn(13000))
+	if pat == "le" || pat == "le4" {
+		k.ClientWrites, k.ServerWrites = c04Writes(r, 5000), c04Writes(r, 7000)
+	}
+	if m.Class == "nonce" && m.Kind != "nonce-advance-cut" && !udp {
+		k.Mut.Unit = 0 // only the first unit of a stream carries the nonce
+	}
+	mine, theirs := &k.ClientWrites, &k.ServerWrites
+	if !c2s {
+		mine, theirs = theirs, mine
+	}
+	if m.Kind == "reflect" && udp && m.Ext {
+		// the mutated direction's sender runs ahead of its peer's numbering (a reflected datagram can only
+		// be mistaken for the peer's data while its sequence number is still to come from the peer)
+		(*mine)[0] = 900
+		(*mine)[1] = 12000
+		for i := range *theirs {
+			if (*theirs)[i] > 1200 {
+				(*theirs)[i] = 1200
 			}
-			x[3+r.Intn(3)] = 2500 + r.Intn(2500)
-			x[8+r.Intn(3)] = big
-			return x
 		}
-		k.ClientWrites, k.ServerWrites = ws(9000+r.Intn(5000)), ws(20000+r.Intn(13000))
-		if pat == "le" || pat == "le4" {
-			k.ClientWrites, k.ServerWrites = ws(5000), ws(7000)
-		}
-		if m.Class == "nonce" && m.Kind != "nonce-advance-cut" && !udp {
-			k.Mut.Unit = 0 // only the first unit of a stream carries the nonce
+	}
+	if m.Kind == "reflect" && !udp && m.Ext {
+		k.GapUs = 20000 // both directions must be under way when the target passes: pace the writers
+	}
+	if m.Target == "ack" {
+		// pure acks travel against the data: the mutated direction's sender writes one small chunk
+		*mine = []int{60}
+	}
+	return k
+}
+
+// genC04Boundaries: the deterministic part of every run (quick and thorough), generated BEFORE the random
+// stream. (1) the complete matrix byte-position class x mutation kind on both transports, first / last
+// byte of each class as offsets; (2) the low-entropy encoded body under every kind; (3) UDP datagrams of
+// the other parse path (open session request / response) and pure acks; (4) the boundaries of every
+// length the parsers look at; (5) reflection of data datagrams under every low-entropy pattern in both
+// directions; (6) the specials.
+func genC04Boundaries(r *rand.Rand) []c04Case {
+	var cases []c04Case
+	n := 0
+	add := func(label string, udp bool, pat string, m c04Mut, opt func(*c04Case)) {
+		m.Ext = true
+		k := c04MkCase(r, udp, pat, n%2 == 0, m)
+		n++
+		k.Label = label
+		c04Shrink(&k)
+		if opt != nil {
+			opt(&k)
 		}
 		cases = append(cases, k)
 	}
+	// offsets: first byte of the class for bitflip / insert / truncate, last byte for subst / delete
+	rel := map[string]float64{"bitflip": 0, "insert": 0, "truncate": 0, "subst": 1, "delete": 1}
+	for _, udp := range []bool{false, true} {
+		for _, class := range c04Classes {
+			for _, kind := range c04MatrixKinds {
+				m := c04Mut{Kind: kind, Class: class, Rel: rel[kind], Param: 1}
+				if class == "boundary" && kind == "truncate" && udp {
+					m.ToLen = 72 // the datagram cut at the header boundary (n == packetNonHeaderPosition)
+				}
+				pats := []string{"maxpad"}
+				if class == "payload-ct" || class == "payload-tag" {
+					pats = append(pats, "le") // the low-entropy encoded body
+				}
+				for _, pat := range pats {
+					add("matrix", udp, pat, m, nil)
+				}
+			}
+		}
+	}
+	// (3) the session parse path and pure acks on UDP
+	for _, t := range []struct {
+		target, pat string
+		c2s         bool
+		m           c04Mut
+	}{
+		{"open", "plain", true, c04Mut{Kind: "bitflip", Class: "nonce", Rel: 1}},
+		{"open", "plain", true, c04Mut{Kind: "bitflip", Class: "meta-ct"}},
+		{"open", "plain", true, c04Mut{Kind: "subst", Class: "payload-ct", Rel: 1}}, // piggybacked first write
+		{"open", "plain", true, c04Mut{Kind: "delete", Class: "payload-tag", Rel: 1, Param: 1}},
+		{"open", "plain", true, c04Mut{Kind: "truncate", Class: "payload-ct", Rel: 0.5}},
+		{"open", "plain", true, c04Mut{Kind: "insert", Class: "boundary", Param: 1}},
+		{"open", "maxpad", true, c04Mut{Kind: "insert", Class: "pad2", Param: 1}},
+		{"open", "maxpad", true, c04Mut{Kind: "delete", Class: "pad2", Rel: 1, Param: 1}},
+		{"open", "plain", false, c04Mut{Kind: "bitflip", Class: "meta-tag", Rel: 1}}, // open response
+		{"open", "plain", false, c04Mut{Kind: "insert", Class: "boundary", Param: 1}},
+		{"open", "plain", false, c04Mut{Kind: "truncate", Class: "boundary", ToLen: 71}},
+		{"ack", "plain", true, c04Mut{Kind: "bitflip", Class: "meta-ct", Rel: 0.5}},
+		{"ack", "plain", false, c04Mut{Kind: "subst", Class: "meta-tag"}},
+		{"ack", "plain", true, c04Mut{Kind: "insert", Class: "boundary", Param: 1}},
+		{"ack", "plain", false, c04Mut{Kind: "truncate", Class: "boundary", ToLen: 72}},
+		{"ack", "maxpad", true, c04Mut{Kind: "delete", Class: "boundary", Param: 1}},
+		{"ack", "maxpad", false, c04Mut{Kind: "bitflip", Class: "nonce"}},
+	} {
+		m := t.m
+		m.Target = t.target
+		m.Ext = true
+		k := c04MkCase(r, true, t.pat, t.c2s, m)
+		k.Label = "udp " + t.target
+		cases = append(cases, k)
+	}
+	// (4) lengths. Datagram sizes: 71 / 72 bytes, the 1500-byte socket buffer (grown to exactly 1500 and
+	// 1501 bytes), last byte removed; payload lengths 1, max-1, max of the MTU; paddings of length 0
+	// (insertion exactly where the padding would be)
+	for _, t := range []struct {
+		label string
+		udp   bool
+		pat   string
+		m     c04Mut
+		w     func(k *c04Case)
+	}{
+		{"datagram cut to 71 bytes", true, "maxpad", c04Mut{Kind: "truncate", Class: "boundary", ToLen: 71}, nil},
+		{"datagram cut to 72 bytes", true, "plain", c04Mut{Kind: "truncate", Class: "boundary", ToLen: 72}, nil},
+		{"datagram grown to 1500 bytes", true, "plain", c04Mut{Kind: "insert", Class: "boundary", ToLen: 1500}, nil},
+		{"datagram grown to 1501 bytes", true, "maxpad", c04Mut{Kind: "insert", Class: "boundary", ToLen: 1501}, nil},
+		{"datagram grown to 1501 bytes inside pad2", true, "maxpad", c04Mut{Kind: "insert", Class: "pad2", ToLen: 1501}, nil},
+		{"prefix padding 0: insertion behind the header", true, "plain", c04Mut{Kind: "insert", Class: "payload-ct", Param: 1}, nil},
+		{"prefix padding 0: insertion behind the header", false, "plain", c04Mut{Kind: "insert", Class: "payload-ct", Param: 1}, nil},
+		{"suffix padding 0: insertion behind the tag", true, "plain", c04Mut{Kind: "insert", Class: "boundary", Param: 1}, nil},
+		{"suffix padding 0: insertion behind the tag", false, "plain", c04Mut{Kind: "insert", Class: "boundary", Param: 1}, nil},
+		{"prefix padding cut to one byte less", true, "maxpad", c04Mut{Kind: "delete", Class: "pad1", Rel: 1, Param: 1}, nil},
+		{"payloadLen 1", true, "plain", c04Mut{Kind: "bitflip", Class: "payload-ct", PayloadLen: 1}, func(k *c04Case) { c04LenWrites(k, 1) }},
+		{"payloadLen 1", false, "plain", c04Mut{Kind: "bitflip", Class: "payload-ct", PayloadLen: 1}, func(k *c04Case) { c04LenWrites(k, 1) }},
+		{"payloadLen max-1", true, "plain", c04Mut{Kind: "subst", Class: "payload-ct", Rel: 1}, func(k *c04Case) { c04LenWrites(k, -2) }},
+		{"payloadLen max", true, "plain", c04Mut{Kind: "delete", Class: "payload-tag", Rel: 1, Param: 1}, func(k *c04Case) { c04LenWrites(k, -1) }},
+		{"payloadLen max", true, "maxpad", c04Mut{Kind: "insert", Class: "payload-ct", Rel: 1, Param: 1}, func(k *c04Case) { c04LenWrites(k, -1) }},
+	} {
+		add(t.label, t.udp, t.pat, t.m, t.w)
+	}
+	// (5) a data datagram reflected to its sender, whole: every low-entropy pattern, both directions
+	for _, pat := range []string{"le", "le4", "plain", "maxpad"} {
+		for _, c2s := range []bool{true, false} {
+			k := c04MkCase(r, true, pat, c2s, c04Mut{Kind: "reflect", Class: "boundary", Ext: true})
+			k.Label = "udp reflection of a data datagram, " + pat
+			cases = append(cases, k)
+		}
+	}
+	// (6) specials
+	for _, pat := range []string{"plain", "maxpad", "le"} {
+		cases = append(cases, c04MkCase(r, false, pat, false, c04Mut{Kind: "nonce-advance-cut", Class: "nonce", Param: 1 + r.Intn(3)}))
+		cases = append(cases, c04MkCase(r, false, pat, true, c04Mut{Kind: "nonce-advance-cut", Class: "nonce", Param: 1 + r.Intn(2)}))
+	}
+	for _, udp := range []bool{false, true} {
+		cases = append(cases, c04MkCase(r, udp, "maxpad", r.Intn(2) == 0, c04Mut{Kind: "none", Class: "meta-ct"}))
+	}
+	cases = append(cases, c04Specials(r)...)
+	return cases
+}
+
+// c04Shrink: the deterministic cells need multi-segment traffic in both directions, not volume: eight writes
+// per side, the largest a few segments long.
+func c04Shrink(k *c04Case) {
+	for _, w := range []*[]int{&k.ClientWrites, &k.ServerWrites} {
+		if len(*w) > 8 {
+			*w = (*w)[:8]
+		}
+		for i := range *w {
+			if (*w)[i] > 6000 {
+				(*w)[i] = 4000 + (*w)[i]%2000
+			}
+		}
+	}
+}
+
+// c04Specials: the shared-nonce witnesses (crafted 32-byte application chunks)
+func c04Specials(r *rand.Rand) []c04Case {
+	var cases []c04Case
+	for _, sp := range []string{"swap32", "copy32"} {
+		k := c04Case{Seed: r.Int63(), UDP: true, MTU: 1400, PatternName: "plain", C2S: true, Special: sp, TimeoutS: 30}
+		k.Mut = c04Mut{Kind: map[string]string{"swap32": "meta-payload-swap", "copy32": "meta-over-payload"}[sp], Class: "payload-ct"}
+		p := patJSON(c04Pattern("plain"))
+		k.ClientPattern, k.ServerPattern = p, p
+		cases = append(cases, k)
+	}
+	return cases
+}
+
+// c04LenWrites makes the mutated direction's sender produce a segment whose payload has the wanted
+// length: 1, or (negative) the maximum the MTU allows minus (-want - 1).
+func c04LenWrites(k *c04Case, want int) {
+	mine := &k.ClientWrites
+	if !k.C2S {
+		mine = &k.ServerWrites
+	}
+	n := want
+	if want < 0 {
+		transport := 1
+		if k.UDP {
+			transport = 2
+		}
+		max, err := protocol.VerifMaxFragmentSize(k.MTU, transport, 0)
+		if err != nil || max <= 0 {
+			return
+		}
+		n = max + want + 1
+	}
+	k.Mut.PayloadLen = n
+	// an 1100-byte first write (not piggybacked on the open request), then the chunk of interest alone
+	*mine = []int{1100, n, 300, n, 700}
+}
+
+// genC04Random: the random stream (class, kind, offset, unit, parameter, direction, pattern).
+func genC04Random(r *rand.Rand, thorough bool) []c04Case {
+	var cases []c04Case
+	mk := func(udp bool, pat string, c2s bool, m c04Mut) { cases = append(cases, c04MkCase(r, udp, pat, c2s, m)) }
 	inUnit := []string{"bitflip", "subst", "insert", "delete", "truncate"}
+	unitKinds := []string{"swap-next", "replay-prev", "reflect", "splice"}
 	pats := []string{"plain", "maxpad", "le"}
 	reps := 1
 	if thorough {
@@ -612,24 +952,35 @@ func genC04(r *rand.Rand, thorough bool) []c04Case {
 				if udp && pat == "tcpfrag" {
 					continue
 				}
+				if !thorough {
+					// quick: a handful of random cells per (transport, pattern); the deterministic part
+					// already holds the whole matrix
+					for i := 0; i < 5; i++ {
+						class := c04Classes[r.Intn(len(c04Classes))]
+						if (class == "pad1" || class == "pad2") && pat == "plain" {
+							class = "payload-ct"
+						}
+						kinds := append(append([]string(nil), inUnit...), unitKinds...)
+						kind := kinds[r.Intn(len(kinds))]
+						mk(udp, pat, r.Intn(2) == 0, c04Mut{Kind: kind, Class: class, Unit: 1 + r.Intn(6), Rel: r.Float64(), Param: 1 + r.Intn(7), Ext: true})
+					}
+					mk(udp, pat, r.Intn(2) == 0, c04Mut{Kind: unitKinds[r.Intn(4)], Class: "meta-ct", Unit: 1 + r.Intn(5)})
+					continue
+				}
 				for _, class := range c04Classes {
 					if (class == "pad1" || class == "pad2") && (pat == "plain" || pat == "le4") {
 						continue
 					}
-					kinds := inUnit
-					if !thorough {
-						// quick: two kinds per (transport, pattern, class), rotating
-						i := r.Intn(len(inUnit))
-						kinds = []string{inUnit[i], inUnit[(i+1+r.Intn(len(inUnit)-1))%len(inUnit)]}
-					}
-					for _, kind := range kinds {
-						if class == "boundary" && (kind == "bitflip" || kind == "subst" || kind == "truncate") {
+					for _, kind := range inUnit {
+						ext := class == "boundary" && (kind == "bitflip" || kind == "subst" || kind == "truncate")
+						if ext && kind == "truncate" && udp {
 							continue
 						}
-						mk(udp, pat, r.Intn(2) == 0, c04Mut{Kind: kind, Class: class, Unit: 1 + r.Intn(6), Rel: r.Float64(), Param: 1 + r.Intn(7)})
+						mk(udp, pat, r.Intn(2) == 0, c04Mut{Kind: kind, Class: class, Unit: 1 + r.Intn(6), Rel: r.Float64(), Param: 1 + r.Intn(7), Ext: ext})
 					}
+					mk(udp, pat, r.Intn(2) == 0, c04Mut{Kind: unitKinds[r.Intn(4)], Class: class, Unit: 1 + r.Intn(5), Ext: true})
 				}
-				for _, kind := range []string{"swap-next", "replay-prev", "reflect", "splice"} {
+				for _, kind := range unitKinds {
 					mk(udp, pat, r.Intn(2) == 0, c04Mut{Kind: kind, Class: "meta-ct", Unit: 1 + r.Intn(5)})
 				}
 				if !udp {
@@ -637,15 +988,9 @@ func genC04(r *rand.Rand, thorough bool) []c04Case {
 					mk(false, pat, true, c04Mut{Kind: "nonce-advance-cut", Class: "nonce", Param: 1 + r.Intn(2)})
 				}
 			}
-			mk(udp, "maxpad", r.Intn(2) == 0, c04Mut{Kind: "none", Class: "meta-ct"})
 		}
-		// the shared-nonce witnesses (crafted 32-byte application chunks)
-		for _, sp := range []string{"swap32", "copy32"} {
-			k := c04Case{Seed: r.Int63(), UDP: true, MTU: 1400, PatternName: "plain", C2S: true, Special: sp, TimeoutS: 30}
-			k.Mut = c04Mut{Kind: map[string]string{"swap32": "meta-payload-swap", "copy32": "meta-over-payload"}[sp], Class: "payload-ct"}
-			p := patJSON(c04Pattern("plain"))
-			k.ClientPattern, k.ServerPattern = p, p
-			cases = append(cases, k)
+		if thorough && rep > 0 {
+			cases = append(cases, c04Specials(r)...)
 		}
 	}
 	return cases
@@ -677,15 +1022,49 @@ func c04LoadCorpus(c *core.Ctx) []c04Case {
 func init() {
 	core.Register("C04", &core.Scenario{
 		Run: func(c *core.Ctx) {
-			c.Res.Rule = "each case: real protocol.Mux client and server exchange multi-segment traffic in both directions (4 writes per side, 100 B – 33 KB) on TCP or UDP under one traffic pattern (plain / maximal padding / low entropy mode 2 with rotation / mode 4 / TCP fragmentation); ONE unit (stream segment or datagram) of one direction is mutated in flight: byte-position class {nonce, encrypted metadata, metadata tag, middle padding, payload ciphertext incl. low-entropy encoded body, payload tag, end padding, unit boundary} x kind {bit flip, byte substitution, insertion, deletion, truncation} at a random relative offset, plus swap of two units, replay of the previous unit, reflection to the sender, splice of another unit's payload part, removal of a stream prefix with the clear-text initial nonce advanced (TCP), metadata/payload ciphertext swap and metadata-over-payload copy inside one datagram (UDP, crafted 32-byte application chunk). Oracle: TCP — bytes read are a prefix of bytes written; UDP — read = written and the transfer completes. Distinct = distinct case JSON with the mutation applied."
-			c.Correspondence("mutated unit replayed through the model receiver (StreamWire.drain / PacketWire.parse) with the ideal AEAD keyed by the honest triples seen on the wire; TCP: delivered byte count, UDP: accept/reject (acknowledged before any genuine copy arrived)")
+			c.Res.Rule = "each case: real protocol.Mux client and server exchange multi-segment traffic in both directions (8-12 writes per side, 40 B - 33 KB) on TCP or UDP under one traffic pattern (plain / maximal padding / low entropy mode 2 with rotation / mode 4 / TCP fragmentation); ONE unit (stream segment or datagram) of one direction is mutated in flight. EVERY run starts with the deterministic part: the full matrix byte-position class {nonce, encrypted metadata, metadata tag, middle padding, payload ciphertext incl. low-entropy encoded body, payload tag, end padding, unit boundary} x kind {bit flip, substitution, insertion, deletion, truncation, swap with the next unit, replay of the previous unit, reflection from the opposite direction, splice} on both transports (first / last byte of the class as offsets; the four unit-level kinds act on the byte range of the class, on the whole unit for class boundary), the low-entropy body under every kind, UDP open-session request / response and pure acks (the other parse path), the length boundaries (datagram of 71 / 72 / 1500 / 1501 bytes, payload length 1 / max-1 / max of the MTU, paddings of length 0), reflection of a data datagram that runs ahead of the peer's numbering under every pattern in both directions, removal of a stream prefix with the clear-text initial nonce advanced (TCP), metadata/payload ciphertext swap and metadata-over-payload copy inside one datagram (UDP, crafted 32-byte application chunk); then the random stream (class, kind, offset, unit, parameter, direction, pattern). The class x kind matrix of what was APPLIED is printed; an empty cell fails the run. Oracle: TCP - bytes read are a prefix of bytes written; UDP - read = written and the transfer completes; the session tag the server application reads first is content like any other. Distinct = distinct case JSON with the mutation applied."
+			c.Correspondence("mutated unit replayed through the model receiver (StreamWire.drain / Tamper.parseD) with the ideal AEAD keyed by the honest triples seen on the wire; TCP: delivered byte count, two-sided unless the model receiver is dead (teardown race); UDP: accept/reject (acknowledged before any genuine copy arrived)")
+			c.Correspondence("UDP whole run: every datagram each real endpoint's ReadFrom returned, in order, through Tamper.rxStep (parseD + session dispatch + direction test + Arq.recv; driver op c04-udp-seq): the model's delivered stream is what the sender wrote (content per segment), its length equals what the real application read once the transfer completed, and no cumulative ack of the real endpoint is ahead of what the model had accepted by then")
 			var cases []c04Case
 			cases = append(cases, c04LoadCorpus(c)...)
-			cases = append(cases, genC04(c.Rand, c.Thorough() || c.Search)...) // a broken obligation widens the search
+			cases = append(cases, c04AlignCases(c.Rand, c.Thorough() || c.Search)...) // c04_align.go: deterministic, every run
+			cases = append(cases, genC04Boundaries(c.Rand)...)                        // every run, before the random stream
+			cases = append(cases, genC04Random(c.Rand, c.Thorough() || c.Search)...)  // a broken obligation widens the search
 			for i := 0; i < 3 && i < len(cases); i++ {
 				c.Sample(cases[i])
 			}
-			core.Parallel(len(cases), 16, func(i int) { c04Run(c, cases[i]) })
+			c04Cells = &c04Matrix{}
+			c04Procs = newC04Pool(c, 6)
+			defer func() { c04Procs.close(); c04Procs = nil }()
+			core.Parallel(len(cases), 48, func(i int) { c04Run(c, cases[i]) })
+			// the class x kind matrix of what was actually APPLIED; a cell the deterministic part could
+			// not fill gets one more attempt, then it is a failure of the generator
+			if empty := c04Cells.report(c, false); len(empty) > 0 {
+				var again []c04Case
+				for _, k := range genC04Boundaries(c.Rand) {
+					tr := "tcp"
+					if k.UDP {
+						tr = "udp"
+					}
+					for _, e := range empty {
+						if k.Label == "matrix" && e == tr+"/"+c04CellClass(k.Mut)+"/"+k.Mut.Kind {
+							again = append(again, k)
+						}
+					}
+				}
+				c.Hist("matrix retry", strings.Join(empty, " "))
+				core.Parallel(len(again), 16, func(i int) { c04Run(c, again[i]) })
+			}
+			c04Again.mu.Lock()
+			again := c04Again.cases
+			c04Again.cases = nil
+			c04Again.mu.Unlock()
+			for _, k := range again {
+				c04Run(c, k)
+			}
+			for _, e := range c04Cells.report(c, true) {
+				c.Disagree("C04/generator/empty-cell/"+e, "the case generator did not apply a single mutation of this byte-position class x kind on this transport in this run (two attempts): the campaign does not cover what the property quantifies over", nil)
+			}
 			bgClose.Wait(30 * time.Second)
 		},
 		Replay: func(c *core.Ctx, raw json.RawMessage) {
